@@ -31,6 +31,8 @@ Record ccase := {
   c_threads : list (string * N * bool);   (* site name, derivations on this branch, commits *)
   c_sched : list label;
   c_obs : list (nat * N);                 (* (request, index) obtained on this branch *)
+  c_mem_after : N;                        (* key count the running wallet reports afterwards *)
+  c_disk_after : N;                       (* key count a fresh open of a copy of the file reports *)
   c_strict : bool                         (* scripted scenario (one request runs at a time) *)
 }.
 
@@ -95,13 +97,15 @@ Definition multiset_eqb (a b : list (nat * N)) : bool :=
   Nat.eqb (length a) (length b) && forallb (fun p => Nat.eqb (count p a) (count p b)) (a ++ b).
 
 (** the model, replayed on the observed schedule, hands out the same indices
-    to the same requests and every request ends *)
+    to the same requests, every request ends, and the model's final in-memory
+    and on-disk next index are the key counts observed afterwards *)
 Definition branch_ok (c : ccase) : bool :=
   if c_strict c || forallb held sites then
     match mk_threads (c_threads c) with
     | Some ths =>
       match replay ths (init ths (c_n0 c) (c_cached c)) (c_sched c) with
       | Some s => terminated s && multiset_eqb (issued s) (c_obs c)
+                  && N.eqb (mem_view s) (c_mem_after c) && N.eqb (disk s) (c_disk_after c)
       | None => false
       end
     | None => false
